@@ -38,11 +38,12 @@ type c09Scenario struct {
 
 func init() {
 	register(&PropDef{
-		ID:   "C09",
-		Rule: "scenario = an inbound history over {message, presence, iq, <r/>, <a/>, other non-stanza elements} of length 0-80 with <r/> at drawn positions, optionally cut at a drawn byte and continued after a resumption (up to 3 resumptions), under drawn segmentation, latency and handler slowness; non-trivial = at least one <r/> was answered or one <resume/> was sent; distinct = distinct (scenario hash, schedule hash)",
-		Real: []string{"Client.recv inbound counter and <r/> answers", "Session.resume (<resume h/>)", "Client.Resume", "EnableStreamManagement"},
-		Stub: []string{"TCP (simnet) with cuts", "XMPP server (scripted model counting the stanzas it sent)", "clock (synctest)", "goroutine scheduling (token scheduler)"},
-		Run:  runC09,
+		ID:    "C09",
+		Rule:  "scenario = an inbound history over {message, presence, iq, <r/>, <a/>, other non-stanza elements} of length 0-80 with <r/> at drawn positions, optionally cut at a drawn byte and continued after a resumption (up to 3 resumptions), under drawn segmentation, latency and handler slowness; non-trivial = at least one <r/> was answered or one <resume/> was sent; distinct = distinct (scenario hash, schedule hash)",
+		Real:  []string{"Client.recv inbound counter and <r/> answers", "Session.resume (<resume h/>)", "Client.Resume", "EnableStreamManagement"},
+		Stub:  []string{"TCP (simnet) with cuts", "XMPP server (scripted model counting the stanzas it sent)", "clock (synctest)", "goroutine scheduling (token scheduler)"},
+		Run:   runC09,
+		Reach: []string{"c09.resume_checked", "c09.enabled_after_unmanaged_session", "c09.unmanaged_session_in_between", "c09.requests_pending"},
 	})
 }
 
